@@ -8,6 +8,7 @@ def main():
     if os.environ.get("PYTHONHASHSEED") != "0":
         env = dict(os.environ)
         env["PYTHONHASHSEED"] = "0"
+        env.setdefault("PYTHONWARNINGS", "ignore")
         os.execve(sys.executable, [sys.executable, "-m", "vf.replay"] + sys.argv[1:], env)
     from . import run
     path = sys.argv[1]
